@@ -543,7 +543,10 @@ func DeleteConflicts(uuid dvid.UUID, data DataService, oldParents, newParents []
 			return err
 		}
 		parentsV[i] = oldV
-		if newParents[i] != dvid.NilUUID {
+		// After an earlier data instance was processed, newParents[i] is the old parent itself
+		// if no extension was needed so far: deletions must still go to a new child, never
+		// to the committed parent.
+		if newParents[i] != dvid.NilUUID && newParents[i] != oldUUID {
 			newV, err := manager.versionFromUUID(newParents[i])
 			if err != nil {
 				return err
